@@ -444,6 +444,8 @@ class ValGen:
                 if len(es) >= n:
                     break
                 kv = self.val(t[1], depth + 1)
+                if kv[0] == 'pn':
+                    kv = ('p', self.val(t[1][1], depth + 1))
                 kid = key_id(t[1], kv)
                 if kid is not None:
                     if kid in seen:
